@@ -5,14 +5,48 @@ from analysis import cfg, poly
 from analysis.sym import sym, show_in, nosite, peel, core, walk, ret_values, args_of, guards_at, atoms_at, \
     variant_facts_at, cmp_facts_at, init_value, edge_guards, symbolizer, simplify, loop_source
 from analysis.pat import match, Call, Cap, ANY, Pred, Const, has, chain_names
-from rules.common import closure_of
+from rules.common import closure_of, state_locals, local_defs, V
 
 WS = 'unicode::Character::is_whitespace'
 DP = 'edit::_calculate_edit_matrices'
 
 
+R = {}
+
+
 def _var(name):
-    return Pred(lambda t: t[0] == 'var' and t[1] == name)
+    """role based (never the debug name): d / ops = the cost / op matrices (by element type), i / j = the backtrace
+    positions (by their start value |a| / |b|)"""
+    return Pred(lambda t: isinstance(t, tuple) and t and t[0] == 'var' and len(t) > 2 and R.get(name) == t[2])
+
+
+def _role(local):
+    for k, v in R.items():
+        if v == local:
+            return k
+    return None
+
+
+def _roles_dp(b):
+    R.clear()
+    d = state_locals(b, r'^std::vec::Vec<usize>$')
+    o = state_locals(b, r'^std::vec::Vec<edit::EditOp>$')
+    if len(d) != 1 or len(o) != 1:
+        raise AnchorMissing('cost matrix (Vec<usize>) / op matrix (Vec<EditOp>) of the DP (found %d / %d)' % (len(d), len(o)))
+    R['d'], R['ops'] = d[0], o[0]
+
+
+def _roles_bt(b):
+    R.clear()
+    for l in state_locals(b, r'^usize$'):
+        for site, v in local_defs(b, l):
+            cv = core(v)
+            if match(cv, Call('CharString::len', Call('CharString::new', ('arg', 1, ANY), ANY))):
+                R['i'] = l
+            elif match(cv, Call('CharString::len', Call('CharString::new', ('arg', 2, ANY), ANY))):
+                R['j'] = l
+    if 'i' not in R or 'j' not in R:
+        raise AnchorMissing('backtrace positions starting at |a| and |b|')
 
 
 def _stores(b, blocks=None):
@@ -42,6 +76,7 @@ def dp_info(ctx):
             outer = l
     if outer is None:
         raise AnchorMissing('outer DP loop')
+    _roles_dp(b)
     info = DPInfo()
     info.b, info.min, info.inner, info.outer = b, mins[0], inner, outer
     # loop elements: (idx, char) of enumerate over a_chars / b_chars
@@ -55,13 +90,13 @@ def dp_info(ctx):
     info.nx_b, info.src_b = elem(inner, None)
     info.a_item = ('unwrap', nosite(sym(b, info.nx_a.dest)))
     info.b_item = ('unwrap', nosite(sym(b, info.nx_b.dest)))
-    ka = repr(nosite(core(('field', info.a_item, 0))))
-    kb = repr(nosite(core(('field', info.b_item, 0))))
+    ka = poly.atom_key(core(('field', info.a_item, 0)))
+    kb = poly.atom_key(core(('field', info.b_item, 0)))
     info.ka, info.kb = ka, kb
     # cols = len(b) + 1
-    cols = [v for s, t, v in _stores(b) if t[0] == 'var' and t[1] == 'cols']
+    cols = [v for s, t, v in _stores(b) if match(core(v), ('bin', 'Add', Call('CharString::len', ('arg', 2, ANY)), Const(1)))][:1]
     info.cols_ok = len(cols) == 1 and match(core(cols[0]), ('bin', 'Add', Call('CharString::len', ('arg', 2, ANY)), Const(1)))
-    info.cols_key = repr(nosite(core(cols[0]))) if cols else None
+    info.cols_key = poly.atom_key(core(cols[0])) if cols else None
     info.cols_poly = poly.poly(core(cols[0])) if cols else None
     return info
 
@@ -184,10 +219,10 @@ def r2(ctx):
     tgt = {}
     for s, t, v in _stores(b, info.inner.blocks):
         ct = core(t)
-        if ct[0] == 'index' and ct[1][0] == 'var' and ct[1][1] in ('d', 'ops'):
+        if ct[0] == 'index' and ct[1][0] == 'var' and _role(ct[1][2]) in ('d', 'ops'):
             cv = core(v)
             if has(cv, Pred(lambda u: nosite(u) == nosite(core(sel)))):
-                tgt[ct[1][1]] = (s, ct, cv)
+                tgt[_role(ct[1][2])] = (s, ct, cv)
     if 'd' not in tgt or 'ops' not in tgt:
         raise AnchorMissing('stores d[i*cols+j] = min_cost / ops[i*cols+j] = min_op')
     target = tgt['d'][1][2]
@@ -248,7 +283,7 @@ def r2(ctx):
             got_add = c[2][2]
             c = c[3]
         rel = None
-        if c[0] == 'index' and c[1][0] == 'var' and c[1][1] == 'd':
+        if c[0] == 'index' and c[1][0] == 'var' and _role(c[1][2]) == 'd':
             rel = _rel(info, c[2], target)
         ctx.require(rel == (di, dj) and got_add == add, b, 'candidate|' + name,
                     '%s: cost d[i%+d][j%+d] + %d' % (name, di, dj, add),
@@ -307,7 +342,7 @@ def r2(ctx):
     init = {}
     for s, t, v in _stores(b):
         ct = core(t)
-        if s.bb in info.outer.blocks or not (ct[0] == 'index' and ct[1][0] == 'var' and ct[1][1] == 'd'):
+        if s.bb in info.outer.blocks or not (ct[0] == 'index' and ct[1][0] == 'var' and _role(ct[1][2]) == 'd'):
             continue
         init[repr(poly.poly(ct[2]))] = (s, ct, core(v))
     vals = list(init.values())
@@ -337,6 +372,7 @@ def r2(ctx):
       'reversed once; the loop runs while i > 0 || j > 0')
 def r3(ctx):
     b = ctx.body('edit::operations')
+    _roles_bt(b)
     pushes = [t for t in b.calls(r'Vec::push$')]
     if not pushes:
         raise AnchorMissing('pushes of the backtrace')
@@ -347,7 +383,7 @@ def r3(ctx):
     arms = {}
     for blk in loop.blocks:
         for t, names in variant_facts_at(b, blk):
-            if len(names) == 1 and t[0] in ('index',) or (len(names) == 1 and has(t, _var('ops')) or (len(names) == 1 and 'EditOp' in repr(t))):
+            if len(names) == 1 and list(names)[0] in table:
                 arms.setdefault(list(names)[0], set()).add(blk)
     sts = list(_stores(b, loop.blocks))
     for name, (di, dj, pushed) in table.items():
@@ -358,10 +394,10 @@ def r3(ctx):
         dec = {'i': 0, 'j': 0}
         bad = []
         for s, t, v in sts:
-            if s.bb in blocks and t[0] == 'var' and t[1] in ('i', 'j'):
+            if s.bb in blocks and t[0] == 'var' and _role(t[2]) in ('i', 'j'):
                 cv = core(v)
-                if cv[0] == 'bin' and cv[1] == 'Sub' and cv[2][0] == 'var' and cv[2][1] == t[1] and cv[3][0] == 'const':
-                    dec[t[1]] += cv[3][2]
+                if cv[0] == 'bin' and cv[1] == 'Sub' and cv[2][0] == 'var' and cv[2][2] == t[2] and cv[3][0] == 'const':
+                    dec[_role(t[2])] += cv[3][2]
                 else:
                     bad.append(show_in(b, v))
         ctx.require((dec['i'], dec['j']) == (di, dj) and not bad, b, 'step|' + name, '%s moves (i, j) by (-%d, -%d)' % (name, di, dj),
@@ -376,7 +412,7 @@ def r3(ctx):
             ok = v[0] == 'agg' and len(v[3]) == 3 and v[3][0][0] == 'agg' and v[3][0][2].endswith('EditOperation::' + pushed) and \
                 match(v[3][1], _var('i')) and match(v[3][2], _var('j'))
             # positions are the decremented ones: every decrement of the arm dominates the push
-            decs = [s for s, t, vv in sts if s.bb in blocks and t[0] == 'var' and t[1] in ('i', 'j')]
+            decs = [s for s, t, vv in sts if s.bb in blocks and t[0] == 'var' and _role(t[2]) in ('i', 'j')]
             ok = ok and all(cfg.dominates(b, s.bb, ps[0].bb) and s.bb != ps[0].bb or (s.bb == ps[0].bb) for s in decs)
             # tuple built after the decrements: the aggregate statement's block is dominated by the decrement blocks
             tup = [s for s in b.stmts() if s.bb in blocks and s.kind == 'assign' and s.rv.kind == 'agg' and s.rv.agg == 'tuple' and len(s.rv.ops) == 3]
@@ -393,10 +429,9 @@ def r3(ctx):
         if gi and gj:
             ok = True
     ctx.require(ok, b, 'loop-condition', 'the backtrace runs while i > 0 || j > 0', None)
-    from analysis.sym import var_defs
     inits = {}
     for nm in ('i', 'j'):
-        for site, v in var_defs(b, nm):
+        for site, v in local_defs(b, R[nm]):
             if site.bb not in loop.blocks:
                 inits[nm] = core(v)
     ok = match(inits.get('i', ()), Call('CharString::len', Call('CharString::new', ('arg', 1, ANY), ANY))) and \
